@@ -241,7 +241,7 @@ class Env:
         return e
 
 
-_BUILTIN_NAMES = {"range", "len", "abs", "float", "int", "max", "min", "sum", "tuple", "list", "enumerate",
+_BUILTIN_NAMES = {"get_num_threads", "get_thread_id", "range", "len", "abs", "float", "int", "max", "min", "sum", "tuple", "list", "enumerate",
                   "zip", "isinstance", "complex", "bool", "round", "pow", "reversed", "sorted", "print", "dict",
                   "str", "ValueError", "RuntimeError", "TypeError", "NotImplementedError", "Exception",
                   "ZeroDivisionError", "KeyError", "IndexError", "getattr", "hasattr", "callable", "set", "any",
@@ -360,6 +360,10 @@ class Interp:
                 return ("builtin", "range")
             if tail == "List":
                 return ("builtin", "list")
+            if tail == "Dict":
+                return ("builtin", "dict")
+            if tail in ("get_num_threads", "get_thread_id"):
+                return ("builtin", tail)
             if tail in ("njit", "jit"):
                 return Opaque("numba.njit")
             return Opaque(dotted)
@@ -1384,6 +1388,8 @@ class Interp:
             return base[k]
         if isinstance(base, Opaque):
             return Opaque(base.name + "[]")
+        if isinstance(base, tuple) and base and base[0] in ("np", "builtin") and isinstance(base[1], str):
+            return Opaque(f"{base[1]}[]")
         if isinstance(base, sp.Basic) and isinstance(base, sp.IndexedBase):
             return base[idx]
         raise OutsideFragment(f"subscript of {type(base).__name__}")
@@ -1393,6 +1399,11 @@ class Interp:
         return self.getattr(base, node.attr)
 
     def getattr(self, base, attr):
+        if isinstance(base, tuple) and len(base) == 2 and base[0] == "builtin":
+            if base[1] == "list" and attr == "empty_list":
+                return lambda *a, **k: []
+            if base[1] == "dict" and attr == "empty":
+                return lambda *a, **k: {}
         if isinstance(base, ModuleRef):
             if base.name == "np":
                 if attr in ("linalg", "random", "testing"):
@@ -1518,6 +1529,10 @@ class Interp:
                 return ()
         if isinstance(base, tuple) and base and base[0] == "np":
             return ("np", base[1] + "." + attr)
+        if isinstance(base, tuple) and base and base[0] == "builtin" and base[1] == "list" and attr == "empty_list":
+            return lambda *a, **k: []
+        if isinstance(base, tuple) and base and base[0] == "builtin" and base[1] == "dict" and attr == "empty":
+            return lambda *a, **k: {}
         if isinstance(base, slice) and attr in ("start", "stop", "step"):
             return getattr(base, attr)
         raise OutsideFragment(f"attribute {attr} of {type(base).__name__}")
@@ -1564,6 +1579,11 @@ class Interp:
     def builtin(self, name, args, kw):
         if name == "range":
             return range(*[as_int(a, "range bound") for a in args])
+        if name == "get_num_threads":
+            return int(getattr(self, "n_threads", 1))
+        if name == "get_thread_id":
+            f = getattr(self, "thread_id_fn", None)
+            return int(f()) if f is not None else 0
         if name == "len":
             a = args[0]
             if isinstance(a, np.ndarray):
